@@ -115,9 +115,18 @@ def build(desc: dict):
                 "nEdgeLabels": nel, "nFeatures": nfeat, "hasChildren": children, "hasDescription": descr,
                 "style": [[k, val_to_model(v)] for k, v in style.items()]}
 
+    def revive(v):  # a replay file stores RGB tuples as JSON lists
+        from capellambse.diagram import capstyle
+
+        if isinstance(v, list) and v and all(isinstance(x, (int, float)) for x in v) and len(v) in (3, 4):
+            return capstyle.RGB(*v)
+        if isinstance(v, list):
+            return [revive(x) for x in v]
+        return v
+
     for e in desc["elems"]:
         kind = e["kind"]
-        st = dict(e.get("style") or {})
+        st = {k_: revive(v_) for k_, v_ in (e.get("style") or {}).items()}
         ctx = e.get("context") or []
         hid = bool(e.get("hidden"))
         if kind in ("box", "symbol", "box_symbol"):
